@@ -3,7 +3,7 @@
    new-bucket and move addresses come from the oracle and are checked) returns a result whenever the abstract operation does.
    A pointer-level fault is an access to a freed or unallocated node, a read of a moved-out payload, or the eviction loop
    running off an empty list: none of them can happen. (With B/RefineB.v: the result is then Layer A's.) *)
-Require Import LruV.B.StepB LruV.B.OpsProps LruV.B.RefineLemmas LruV.B.RefineIter LruV.B.RefineB LruV.B.PanicB LruV.A.OrderA LruV.A.ListLemmas.
+Require Import LruV.B.StepB LruV.B.OpsProps LruV.B.RefineLemmas LruV.B.RefineIter LruV.B.RefineB LruV.B.PanicB LruV.B.CloneB LruV.B.FrameB LruV.A.OrderA LruV.A.ListLemmas.
 
 Section Params.
 Variables (E VS : N).
@@ -271,3 +271,81 @@ Proof.
       destruct (capacity t' <? capacity (btb b)); [rewrite Em; cbn [bind]; eauto|eauto].
 Qed.
 End ParamsO.
+
+(* ---------- the consuming and copying operations ---------- *)
+Theorem into_iter_total b kind pat f : RIg (bg b) -> exists r, bB_into_iter b kind pat f = Some r.
+Proof.
+  intros H. unfold bB_into_iter. rewrite (cursor_new_start _ H). cbn [bind].
+  pose proof H as (Hnd & Hc & _ & _).
+  destruct (tk_spec pat (rev (glist (bg b))) (gh (bg b)) 0 (RI_nodup_rev _ H) (chain_linked _ _ _ Hnd Hc) (RI_live _ H)) as (h3 & -> & _).
+  cbn [bind]. eauto.
+Qed.
+
+(* clone: given a new seal address that is not in use and enough pairwise distinct bucket addresses outside both structures,
+   the walk over the source never faults *)
+Lemma clone_walk_total ren seal_s ls : forall TA fuel DA gc addrs,
+  RI (gh gc) seal_s ls -> RIg gc -> (forall x, In x (seal_s :: ls) -> ~ In x (gseal gc :: glist gc)) ->
+  rev ls = DA ++ TA -> (length TA <= fuel)%nat -> (length TA <= length addrs)%nat -> NoDup addrs ->
+  (forall a, In a addrs -> ~ In a (seal_s :: ls) /\ ~ In a (gseal gc :: glist gc)) ->
+  exists gc', b_clone_walk fuel (seal_s :: ls) (match TA with [] => seal_s | t :: _ => t end) gc addrs ren = Some gc'.
+Proof.
+  induction TA as [|t TA IH]; intros fuel DA gc addrs Hsrc Hc Hdis Er Hfuel Hlen Hnda Hfresh.
+  - destruct fuel; cbn [b_clone_walk hd]; rewrite N.eqb_refl; eauto.
+  - set (gs := {| gh := gh gc; gseal := seal_s; glist := ls |}).
+    assert (Hgs : RIg gs) by exact Hsrc.
+    assert (Hin : In t ls) by (apply in_rev; rewrite Er; apply in_or_app; right; now left).
+    assert (Hts : t <> seal_s) by (intros ->; destruct Hsrc as (Hn & _); apply NoDup_cons_iff in Hn as [Hs _]; tauto).
+    destruct fuel as [|f]; [cbn in Hfuel; lia|]. cbn [b_clone_walk hd]. destruct (N.eqb_spec t seal_s) as [|_]; [tauto|].
+    destruct (RI_entry gs t Hgs Hin) as [e He]. cbn [gh gs] in He. rewrite He. cbn [bind].
+    pose proof (prev_in_walk gs DA t TA Hgs Er) as Hp. cbn [gh gseal gs] in Hp. rewrite Hp. cbn [bind].
+    destruct addrs as [|a ar]; [cbn in Hlen; lia|].
+    destruct (Hfresh a (or_introl eq_refl)) as [Hf1 Hf2].
+    rewrite (mem_addr_false _ _ Hf1), (mem_addr_false _ _ Hf2). cbn [orb].
+    set (e' := clone_entry ren e).
+    destruct (b_insert_new_RI gc a (es e') (ek e') (ev e') Hc Hf2) as (gc1 & Ei & H1 & Hs1 & Hl1 & _). rewrite Ei. cbn [bind].
+    pose proof (b_insert_new_frame gc a _ _ gc1 Hc Hf2 Ei) as Hfr.
+    assert (Hsame : forall x, In x (seal_s :: ls) -> gh gc1 x = gh gc x).
+    { intros x Hx. apply Hfr; [now apply Hdis|]. intros ->. tauto. }
+    assert (Hsrc1 : RI (gh gc1) seal_s ls) by (apply (RI_frame (gh gc)); [exact Hsame|exact Hsrc]).
+    apply NoDup_cons_iff in Hnda as [Hna Hnda'].
+    assert (Er' : rev ls = (DA ++ [t]) ++ TA) by (rewrite <- app_assoc; exact Er).
+    apply (IH f (DA ++ [t]) gc1 ar Hsrc1 H1); auto.
+    + intros x Hx Hi. rewrite Hs1, Hl1 in Hi. destruct Hi as [E0|[E0|Hi]]; [apply (Hdis x Hx); now left|subst x; tauto|apply (Hdis x Hx); now right].
+    + cbn in Hfuel. lia.
+    + cbn in Hlen. lia.
+    + intros x Hx. destruct (Hfresh x (or_intror Hx)) as [G1 G2]. split; [exact G1|]. rewrite Hs1, Hl1. intros [E0|[E0|Hi]]; [apply G2; now left|subst x; tauto|apply G2; now right].
+Qed.
+
+Section ParamsC.
+Variables (E : N).
+Theorem clone_total b seal_c addrs ren r : RIg (bg b) -> do_clone E (absB b) ren = Some r ->
+  gh (bg b) seal_c = None -> ~ In seal_c (gseal (bg b) :: glist (bg b)) ->
+  NoDup addrs -> (length (glist (bg b)) <= length addrs)%nat ->
+  (forall a, In a addrs -> a <> seal_c /\ ~ In a (gseal (bg b) :: glist (bg b))) ->
+  exists r', bB_clone E b seal_c addrs ren = Some r'.
+Proof.
+  intros H HA Hsc Hfs Hnda Hlen Hfresh. unfold bB_clone. unfold do_clone in HA. cbn [tb absB] in HA.
+  destruct (t_alloc E (capacity (btb b)) true) as [t| |]; try discriminate.
+  rewrite (mem_addr_false _ _ Hfs), Hsc.
+  set (h0 := upd (gh (bg b)) seal_c {| nprev := seal_c; nnext := seal_c; nsize := 0; npay := PSeal |}).
+  assert (Hsame : forall x, In x (gseal (bg b) :: glist (bg b)) -> h0 x = gh (bg b) x) by (intros x Hx; apply upd_other; intros ->; tauto).
+  assert (Hsrc0 : RI h0 (gseal (bg b)) (glist (bg b))) by (apply (RI_frame (gh (bg b))); [exact Hsame|exact H]).
+  set (gs := {| gh := h0; gseal := gseal (bg b); glist := glist (bg b) |}).
+  pose proof (b_lru_spec gs Hsrc0) as Hl. unfold b_lru in Hl. cbn [gh gseal glist gs] in Hl.
+  destruct (prevof h0 (gseal (bg b))) as [t0|]; [|discriminate]. cbn [bind] in *.
+  assert (Ht0 : t0 = match rev (glist (bg b)) with [] => gseal (bg b) | t :: _ => t end).
+  { destruct (rev (glist (bg b))); destruct (N.eqb_spec t0 (gseal (bg b))); congruence. }
+  rewrite Ht0.
+  set (gc0 := {| gh := h0; gseal := seal_c; glist := [] |}).
+  assert (Hc0 : RIg gc0).
+  { unfold RIg, gc0. cbn [gh gseal glist]. split; [constructor; [intros []|constructor]|]. split; [|split; [|intros ? []]].
+    - cbn [app chain]. unfold nextof, prevof, h0. rewrite upd_same. auto.
+    - unfold payof, h0. now rewrite upd_same. }
+  destruct (clone_walk_total ren (gseal (bg b)) (glist (bg b)) (rev (glist (bg b))) (length (glist (bg b))) [] gc0 addrs) as [gc ->]; auto.
+  - intros x Hx [E0|[]]. cbn [gseal gc0] in E0. subst x. tauto.
+  - rewrite rev_length. lia.
+  - rewrite rev_length. exact Hlen.
+  - intros a Ha. destruct (Hfresh a Ha) as [G1 G2]. split; [exact G2|]. intros [E0|[]]. cbn [gseal gc0] in E0. congruence.
+  - cbn [bind]. eauto.
+Qed.
+End ParamsC.
